@@ -133,3 +133,143 @@ mod tests {
         assert!(weight_multiplier(YEAR).cmp(&Q::int(16)) == std::cmp::Ordering::Equal);
     }
 }
+
+// ------------------------------------------------------------------------------------------------
+// stableswap: exact invariant, in the contracts' own convention (Ann = amp * n):
+//     Ann*S + D = Ann*D + D^(n+1) / (n^n * prod x)
+// Amounts are normalised to the pool's highest precision as integers. Roots are bracketed by
+// integer bisection at RES sub-unit resolution; comparisons are made at that resolution.
+
+pub const RES_DIGITS: u32 = 9;
+
+pub fn res() -> BigUint {
+    BigUint::from(10u64).pow(RES_DIGITS)
+}
+
+pub struct Stable {
+    pub ann: BigUint,
+    pub n: u32,
+    pub nn: BigUint,
+}
+
+impl Stable {
+    pub fn new(amp: u64, n: usize) -> Stable {
+        let n32 = n as u32;
+        Stable { ann: BigUint::from(amp) * BigUint::from(n32), n: n32, nn: BigUint::from(n32).pow(n32) }
+    }
+
+    /// floor(D * RES) for balances xs (all > 0). h(D) = D^(n+1) + (Ann-1)*P*D - Ann*S*P, P = n^n prod x.
+    pub fn d_scaled(&self, xs: &[BigUint]) -> Option<BigUint> {
+        if xs.iter().any(|x| x.is_zero()) || xs.len() as u32 != self.n {
+            return None;
+        }
+        let r = res();
+        let s: BigUint = xs.iter().sum();
+        let mut p = self.nn.clone();
+        for x in xs {
+            p *= x;
+        }
+        let n1 = self.n + 1;
+        // scaled: d^(n+1) + (Ann-1) P d R^n  <=  Ann S P R^(n+1)
+        let rn = r.pow(self.n);
+        let lin = (&self.ann - BigUint::one()) * &p * &rn;
+        let rhs = &self.ann * &s * &p * &rn * &r;
+        let holds = |d: &BigUint| -> bool { d.pow(n1) + &lin * d <= rhs };
+        let mut lo = BigUint::zero();
+        let mut hi = &s * &r + BigUint::one();
+        // D <= S always (equality when balanced); make sure hi is a strict upper bound
+        while holds(&hi) {
+            hi = &hi * 2u32;
+        }
+        while &hi - &lo > BigUint::one() {
+            let mid = (&lo + &hi) >> 1;
+            if holds(&mid) {
+                lo = mid;
+            } else {
+                hi = mid;
+            }
+        }
+        Some(lo)
+    }
+
+    /// smallest t with y = t/RES satisfying the invariant for the other balances `others`
+    /// (the n-1 balances that are not the unknown one) and D = d_scaled / RES. Returns ceil(y*RES).
+    pub fn y_scaled(&self, others: &[BigUint], d_scaled: &BigUint) -> Option<BigUint> {
+        if others.iter().any(|x| x.is_zero()) || others.len() as u32 + 1 != self.n {
+            return None;
+        }
+        let r = res();
+        let sp: BigUint = others.iter().sum();
+        let mut pp = self.nn.clone();
+        for x in others {
+            pp *= x;
+        }
+        let n = self.n;
+        // F(t) = Ann*P'*t^2*R^(n-1) + (Ann*S'*R + d - Ann*d) * P' * t * R^(n-1) - d^(n+1) >= 0
+        let rn1 = r.pow(n - 1);
+        let a2 = &self.ann * &pp * &rn1;
+        let lin_pos = (&self.ann * &sp * &r + d_scaled) * &pp * &rn1;
+        let lin_neg = &self.ann * d_scaled * &pp * &rn1;
+        let cst = d_scaled.pow(n + 1);
+        let ok = |t: &BigUint| -> bool { &a2 * t * t + &lin_pos * t >= &lin_neg * t + &cst };
+        let mut hi = d_scaled.clone() + BigUint::one();
+        while !ok(&hi) {
+            hi = &hi * 2u32;
+        }
+        let mut lo = BigUint::zero();
+        while &hi - &lo > BigUint::one() {
+            let mid = (&lo + &hi) >> 1;
+            if ok(&mid) {
+                hi = mid;
+            } else {
+                lo = mid;
+            }
+        }
+        Some(hi)
+    }
+}
+
+/// normalise pool amounts to the highest precision; None when a decimals value is unsupported
+pub fn normalise(amounts: &[u128], decimals: &[u8]) -> Option<(Vec<BigUint>, u32)> {
+    let mx = *decimals.iter().max()? as u32;
+    if mx > 18 || amounts.len() != decimals.len() {
+        return None;
+    }
+    let v = amounts
+        .iter()
+        .zip(decimals.iter())
+        .map(|(a, d)| BigUint::from(*a) * BigUint::from(10u64).pow(mx - *d as u32))
+        .collect();
+    Some((v, mx))
+}
+
+#[cfg(test)]
+mod stable_tests {
+    use super::*;
+    #[test]
+    fn balanced_d_is_sum() {
+        let st = Stable::new(100, 3);
+        let xs = vec![big(1_000_000), big(1_000_000), big(1_000_000)];
+        let d = st.d_scaled(&xs).unwrap();
+        assert_eq!(d, big(3_000_000) * res());
+    }
+    #[test]
+    fn y_plugs_back() {
+        let st = Stable::new(85, 2);
+        let xs = vec![big(5_000_000_000), big(7_000_000_123)];
+        let d = st.d_scaled(&xs).unwrap();
+        // solving for the second balance given the first must give it back (within resolution)
+        let y = st.y_scaled(&[xs[0].clone()], &d).unwrap();
+        let want = &xs[1] * res();
+        let diff = if y > want { &y - &want } else { &want - &y };
+        assert!(diff <= big(1000), "diff {diff}");
+        // a trade: add 1e9 to x0, y decreases, and D recomputed from the new balances is unchanged
+        let x0 = &xs[0] + big(1_000_000_000);
+        let y2 = st.y_scaled(&[x0.clone()], &d).unwrap();
+        assert!(y2 < y);
+        let y2_units = (&y2 + res() - BigUint::one()) / res();
+        let d2 = st.d_scaled(&[x0, y2_units]).unwrap();
+        assert!(d2 >= d);
+        assert!(&d2 - &d < res() * 4u32);
+    }
+}
